@@ -649,7 +649,16 @@ func CheckStress(p SPlan) ([]evid.Violation, int, int) {
 					}
 					req, _ := encodeCall(w, id, cs)
 					fault := next(6) == 0
-					if fault {
+					if fault && strings.HasSuffix(cs.Transport, "-gzip") && next(2) == 0 {
+						// a compressed message that does not inflate (bit flip inside the deflate data):
+						// the call fails, everybody else must not notice
+						faults.Add(1)
+						raw, _ := io.ReadAll(req.Body)
+						if at := 20 + next(16); at < len(raw) {
+							raw[at] ^= byte(1 + next(255))
+						}
+						req.Body = io.NopCloser(bytes.NewReader(raw))
+					} else if fault {
 						faults.Add(1)
 						req.Body = io.NopCloser(&failingReader{r: req.Body, after: 3 + next(40)})
 					}
